@@ -3,6 +3,7 @@ import Skc.Model.Capa
 import Skc.Model.Pen
 import Skc.Model.Det
 import Skc.Model.Conv
+import Skc.Gen.KernelsFloat
 /-! Line-protocol driver over the executable models (`lake exe skcdrv` or
     `lake env lean --run Driver.lean`): one operation per input line, one canonical output line
     per operation; ill-formed lines answer `bad-op` (never a default). Carrier: `Rat`. -/
@@ -180,6 +181,64 @@ def handleConv (op : String) (ws : List String) : String :=
       if labels.length ≠ n * p then "bad-op" else toString (subD2S (chunk p (n + 1) labels) p)
     | _, _ => "bad-op"
 
+/-- Float prefix sums with a leading zero, accumulated sequentially like `np.cumsum` -/
+def fpsum (xs : Array Float) : Array Float := Id.run do
+  let mut acc : Float := 0.0
+  let mut out : Array Float := #[0.0]
+  for x in xs do
+    acc := acc + x
+    out := out.push acc
+  return out
+
+def bitsOf (x : Float) : String := toString x.toBits.toNat
+def floatOf (w : String) : Option Float := w.toNat?.map (fun n => Float.ofBits n.toUInt64)
+
+/-- Float instantiation of the *generated* kernels (validates the translator's per-element reading
+    of the vectorised NumPy code).  Floats travel as the decimal value of their IEEE-754 bits.
+    `kern <name> <scalar args…> | <data column…>` -/
+def handleKern (ws : List String) : String :=
+  match ws with
+  | name :: rest =>
+    let (args, data) := rest.span (· ≠ "|")
+    let data := data.drop 1
+    match data.mapM floatOf with
+    | none => "bad-op"
+    | some xs =>
+      let xa := xs.toArray
+      let S := fpsum xa
+      let S2 := fpsum (xa.map (fun x => x * x))
+      let sums (k : Nat) : Float := S.getD k 0.0
+      let sums2 (k : Nat) : Float := S2.getD k 0.0
+      let nat (i : Nat) : Option Nat := (args.getD i "").toNat?
+      let flt (i : Nat) : Option Float := floatOf (args.getD i "")
+      let r : Option (List Float) :=
+        match name with
+        | "l2_cost_optim" => do some [GenF.l2_cost_optim (← nat 0) (← nat 1) sums sums2]
+        | "l2_cost_fixed" => do some [GenF.l2_cost_fixed (← nat 0) (← nat 1) sums sums2 (← flt 2)]
+        | "var_from_sums" => do some [GenF.var_from_sums (← nat 0) (← nat 1) sums sums2]
+        | "gaussian_var_cost_optim" => do some [GenF.gaussian_var_cost_optim (← nat 0) (← nat 1) sums sums2]
+        | "gaussian_var_cost_fixed" => do
+            some [GenF.gaussian_var_cost_fixed (← nat 0) (← nat 1) sums sums2 (← flt 2) (← flt 3)]
+        | "cusum_score" => do some [GenF.cusum_score (← nat 0) (← nat 1) (← nat 2) sums]
+        | "l2_saving" => do some [GenF.l2_saving (← nat 0) (← nat 1) sums]
+        | "capa_penalty" => do some [GenF.capa_penalty (← flt 0) (← flt 1) (← flt 2)]
+        | "dense_mvcapa_penalty" => do
+            some [GenF.dense_mvcapa_penalty_alpha (← flt 0) (← flt 1) (← flt 2) (← flt 3),
+                  GenF.dense_mvcapa_penalty_beta (← flt 0) (← flt 1) (← flt 2) (← flt 3)]
+        | "sparse_mvcapa_penalty" => do
+            some [GenF.sparse_mvcapa_penalty_alpha (← flt 0) (← flt 1) (← flt 2) (← flt 3),
+                  GenF.sparse_mvcapa_penalty_beta (← flt 0) (← flt 1) (← flt 2) (← flt 3)]
+        | "pelt_default_penalty" => do some [GenF.pelt_default_penalty (← flt 0) (← flt 1)]
+        | "sbs_default_threshold" => do some [GenF.sbs_default_threshold (← flt 0) (← flt 1)]
+        | "cbs_default_threshold" => do some [GenF.cbs_default_threshold (← flt 0) (← flt 1) (← flt 2)]
+        | "mw_default_threshold" => do
+            some [GenF.mw_default_threshold (← flt 0) (← flt 1) (← flt 2) (← flt 3)]
+        | _ => none
+      match r with
+      | none => "bad-op"
+      | some vs => " ".intercalate (vs.map bitsOf)
+  | _ => "bad-op"
+
 def handle (line : String) : String :=
   let ws := (line.trimAscii.toString.splitOn " ").filter (· ≠ "")
   match ws with
@@ -191,6 +250,7 @@ def handle (line : String) : String :=
   | "sbs" :: rest => handleSbs rest
   | "cbs" :: rest => handleCbs rest
   | "mw" :: rest => handleMw rest
+  | "kern" :: rest => handleKern rest
   | "s2d_coll" :: rest => handleConv "s2d_coll" rest
   | "d2s_coll" :: rest => handleConv "d2s_coll" rest
   | "s2d_cp" :: rest => handleConv "s2d_cp" rest
